@@ -19,7 +19,8 @@ class Check(RecordingCheck):
     module = "Props.C22"
     theorems = ["C22_referential_integrity", "C22_committed_never_lost", "C22_retry_loop_total", "C22_recovery_sound_fixed",
                 "C22_retry_no_loss_fixed_partial", "C22_retry_idempotent_fixed_bounded", "C22_refuted_retry_loses_rows",
-                "C22_refuted_nested_retry_loses_argument", "C22_refuted_crash", "C22_refuted_retry_stale", "C22_nonvacuous"]
+                "C22_refuted_nested_retry_loses_argument", "C22_refuted_crash", "C22_refuted_retry_stale",
+                "C22_refuted_mixed_retry_loses_records", "C22_recovery_sound_mixed_partial", "C22_refuted_mixed_stale", "C22_nonvacuous"]
     rule = ("operation scripts as for C03 but with a fault in most operations (single / repeated OperationalErrors, crash) "
             "and both retry budgets; oracle: (a) every single transient-error position of four record_call_node "
             "operations on a real backend, faulted vs fault-free tables; (b) every commit index of real workflows x "
